@@ -155,6 +155,173 @@ def gen_case(rng, dialect):
             "names": names, "intended_used": used, "dialect": dialect, "features": sorted(g.used_features), "nfns": len(g.fns)}
 
 
+CORE_FEATURES = ["functions", "destructure", "captures", "literals"]
+
+
+def sym_occurs(t, name):
+    if t[0] == "sym":
+        return t[1] == name
+    if t[0] == "list":
+        return any(sym_occurs(x, name) for x in t[1]) or (t[2] is not None and sym_occurs(t[2], name))
+    return False
+
+
+def enclosing_captures(shape, leaf, above=()):
+    """names of the `(@ cap pat)` captures around the leaf `leaf` (None if the leaf is absent)."""
+    if shape[0] == "leaf":
+        return list(above) if shape[1] == leaf else None
+    if shape[0] == "cap":
+        return enclosing_captures(shape[2], leaf, tuple(above) + (shape[1],))
+    for x in list(shape[1]) + ([shape[2]] if shape[2] is not None else []):
+        r = enclosing_captures(x, leaf, above)
+        if r is not None:
+            return r
+    return None
+
+
+def captured_leaves(shape, cap):
+    """every name (leaf or inner capture) under the capture named `cap`."""
+    def names(s, acc):
+        if s[0] == "leaf":
+            acc.append(s[1])
+        elif s[0] == "cap":
+            acc.append(s[1])
+            names(s[2], acc)
+        else:
+            for x in s[1]:
+                names(x, acc)
+            if s[2] is not None:
+                names(s[2], acc)
+        return acc
+
+    def find(s):
+        if s[0] == "cap":
+            return names(s[2], []) if s[1] == cap else find(s[2])
+        if s[0] == "plist":
+            for x in list(s[1]) + ([s[2]] if s[2] is not None else []):
+                r = find(x)
+                if r is not None:
+                    return r
+        return None
+    return find(shape) or []
+
+
+def gen_core_case(rng, dialect):
+    """a program of the CORE language (Lang/Core.lean: mod + defuns + operators + lazy if + calls) with 1..8
+    lower-case parameters, flat / nested / dotted / captured; each parameter independently used directly, only as an
+    argument of a helper (possibly one that ignores it), only under a condition, inside nested conditionals, only in
+    the dead branch of a statically decided `if`, or not at all."""
+    g = progen.ProgGen(rng, dialect, CORE_FEATURES)
+    n = rng.randint(1, 8)
+    pat, types, argv, shape = g.pattern(n, allow_nested=True, prefix="p")
+    names = sorted(types)
+    used = [x for x in names if rng.random() < 0.6]
+    unused = [x for x in names if x not in used]
+    helpers = []
+    for _ in range(rng.randint(0, 2)):
+        helpers.append(g.make_recursive() if rng.random() < 0.25 else g.make_function(False))
+    ign = None
+    if rng.random() < 0.4:
+        # a helper that ignores its second parameter
+        ign = g.fresh("fn_")
+        a, b = g.fresh("A"), g.fresh("A")
+        helpers.append(progen.L(progen.S("defun"), progen.S(ign), progen.L(progen.S(a), progen.S(b)), progen.S(a)))
+    sc = progen.Scope({x: types[x] for x in used})
+    ret = rng.choice(["int", "bytes", "ilist", "any"])
+    body = g.expr(sc, ret, rng.randint(1, 4)) if used else g.lit(ret)
+    kind = "plain"
+    r = rng.random()
+    if used and r < 0.18:
+        kind = "under-condition"
+        body = progen.L(progen.S("if"), progen.S(rng.choice(used)), body, progen.I(7))
+    elif ign and unused and r < 0.40:
+        kind = "argument-of-ignoring-helper"
+        u = rng.choice(unused)
+        arg = progen.S(u) if rng.random() < 0.6 else progen.L(progen.S("c"), progen.S(u), progen.I(1))
+        body = progen.L(progen.S(ign), body, arg)
+    elif used and r < 0.52:
+        kind = "nested-conditional"
+        c1, c2 = rng.choice(used), rng.choice(names)
+        body = progen.L(progen.S("if"), progen.S(c1),
+                        progen.L(progen.S("if"), progen.S(c2), body, g.expr(sc, ret, 1)), g.lit(ret))
+    elif unused and r < 0.62:
+        kind = "static-condition"
+        u = rng.choice(unused)
+        k = rng.randint(0, 5)
+        cond = progen.L(progen.S("="), progen.I(k), progen.I(k + rng.choice([0, 0, 1])))
+        body = progen.L(progen.S("if"), cond, body, progen.S(u))
+    forms = [progen.S("mod"), pat, progen.L(progen.S("include"), progen.S(progen.SIGILS[dialect]))] + helpers + [body]
+    tree = ("list", forms, None)
+    return {"tree": tree, "text": progen.text(tree), "rich": progen.rich(tree), "shape": shape, "types": types,
+            "names": names, "intended_used": used, "dialect": dialect, "features": sorted(g.used_features) + ["core"],
+            "nfns": len(helpers), "core": True, "core_kind": kind, "body": body}
+
+
+def core_model_tie(chk, rng, cases, io):
+    """the theorem's side: for every CORE program, the model of the use check (`Core.reportedUnused`, the set the
+    kernel-checked non-interference theorem covers) against the real report, and `Core.compileCore` against the real
+    compiler's bytes (what makes the theorem speak about the real compiled program).  Returns, per case, the set of
+    names covered by the theorem (None when the program is outside the core or the tie is broken)."""
+    mo = lib.run_model("unused", [c["rich"] for c in cases], per_job=40)
+    ko = lib.run_model("core", [c["rich"] for c in cases], per_job=40)
+    co = lib.run_impl("compile", ["text:O0 " + c["text"].encode().hex() for c in cases], per_job=4, timeout=60)
+    covered = []
+    for c, m, o, k, cc in zip(cases, mo, io, ko, co):
+        mf, of, kf, cf = m.split(" "), o.split(" ", 1), k.split(), cc.split()
+        chk.count(f"core:model:{mf[0]}")
+        chk.count(f"core:kind:{c['core_kind']}")
+        if mf[0] != "M":
+            covered.append(None)
+            continue
+        if mf[1] != "wf":
+            chk.fail("correspondence", "corr:core-progWF", {"program": c["text"]},
+                     "generated core program does not satisfy the theorem's hypothesis progWF")
+            covered.append(None)
+            continue
+        model = set(bytes.fromhex(x).decode("latin-1") for x in (mf[2].split(",") if len(mf) > 2 else []) if x)
+        # byte identity of the compiler model (the theorem is about `compileCore P`)
+        tied = bool(kf) and kf[0] == "K" and bool(cf) and cf[0] == "C" and kf[2] == cf[1]
+        if kf and kf[0] == "K" and cf and cf[0] == "C" and kf[2] != cf[1]:
+            chk.count("core:BYTES-DIFFER")
+            chk.fail("correspondence", "corr:core-compile-bytes", {"program": c["text"]},
+                     {"model": kf[2][:400], "impl": cf[1][:400]})
+        chk.count("core:bytes-equal" if tied else "core:not-compiled-by-impl")
+        if of[0] != "U":
+            chk.count(f"core:real:{of[0]}")
+            covered.append(model if tied else None)
+            continue
+        real = set(x for x in (of[1].split(",") if len(of) > 1 else []) if x)
+        chk.note_case(("core-usecheck", c["text"]), bool(real or model))
+        rel = "equal" if real == model else "model-subset-of-real" if model < real else \
+              "real-subset-of-model" if real < model else "incomparable"
+        chk.count(f"core:relation:{rel}")
+        for x in sorted(real):
+            if x in model:
+                chk.count("core:real-report:covered-by-theorem")
+            else:
+                # the evaluator removed an occurrence the main expression has: not covered by the theorem,
+                # decided by the differential oracle below (NOT a violation by itself)
+                chk.count("core:real-report:oracle-only")
+                chk.count(f"core:oracle-only:{c['core_kind']}")
+                if not sym_occurs(c["body"], x):
+                    chk.fail("correspondence", "corr:usecheck-model-misses-absent-name", {"program": c["text"], "name": x},
+                             "reported by the real check, absent from the main expression, yet not reported by the model")
+        for x in sorted(model - real):
+            # a name absent from the main expression cannot occur in a residue of it — except a capture name
+            # `(@ x pat)` around a leaf the expression uses: the evaluator's environment expression carries the
+            # capture's token where compiled code uses a path into it (the real check is then MORE conservative)
+            if any(sym_occurs(c["body"], y) for y in captured_leaves(c["shape"], x)):
+                chk.count("core:model-reports-more:capture-around-used-name")
+                continue
+            chk.count("core:model-reports-more:UNEXPLAINED")
+            chk.fail("correspondence", "corr:usecheck-model-reports-more", {"program": c["text"], "name": x},
+                     {"model": sorted(model), "real": sorted(real)})
+        covered.append(model if tied else None)
+    if cases:
+        chk.sample({"core_program": cases[0]["text"][:300], "model_report": mo[0], "real_report": io[0]})
+    return covered
+
+
 def run(chk):
     rng = chk.rng
     quick = chk.tier == "quick"
@@ -163,7 +330,10 @@ def run(chk):
                        "directly / through helpers, inlines, lets, lambdas / only under a condition / only in a failing branch / not "
                        "at all; the real check_unused reports a set U; for every u in U, 4 pairs of argument trees differing only in u "
                        "are run through the compiled program (clvmr): outcomes must be identical (same value or both fail). "
-                       "distinct = (program, parameter, argument pair)")
+                       "distinct = (program, parameter, argument pair). CORE stream (programs of Lang/Core.lean with the same "
+                       "parameter strata + argument of an ignoring helper / nested conditional / statically decided if): model "
+                       "Core.reportedUnused vs the real report (model must be a subset; real reports inside it are covered by the "
+                       "kernel-checked theorem), Core.compileCore vs real compiler bytes, and the same differential oracle")
     ok, out = lib.build_harness()
     if not ok:
         chk.fail("proof", "harness-build", {}, out[-1500:])
@@ -182,7 +352,15 @@ def run(chk):
         cases.append({"tree": tree, "text": progen.text(tree), "rich": progen.rich(tree), "shape": shape,
                       "types": {x: "int" for x in names}, "names": names, "intended_used": [], "dialect": "cl21",
                       "features": ["explicit-path"], "nfns": 0})
+    # CORE programs: model of the check vs the real report, compiler model vs real bytes; the same programs also
+    # go through the differential oracle below
+    ncore = 240 if quick else 2000
+    core_cases = [gen_core_case(rng, rng.choice(["cl21", "cl21", "strict21"])) for _ in range(ncore)]
+    cases += core_cases
     outs = lib.run_impl("unused", [c["text"].encode().hex() for c in cases], timeout=60, per_job=8)
+    covered = core_model_tie(chk, rng, core_cases, outs[len(cases) - len(core_cases):])
+    for c, cov in zip(core_cases, covered):
+        c["covered"] = cov
     comp_lines, meta = [], []
     for c, o in zip(cases, outs):
         f = o.split(" ", 1)
@@ -198,12 +376,20 @@ def run(chk):
             if u in reported:
                 chk.count("reported-although-referenced")
         lv = {l[1]: l for l in leaves(c["shape"], [])}
+        npairs = 6
+        if c.get("core") and c.get("covered") is not None:
+            # core stream: every report the theorem does NOT cover goes through the oracle, of those it covers
+            # (usually most of a long parameter list) one (thorough: two) is sampled, with fewer pairs
+            cov = [u for u in reported if u in c["covered"] and u in lv]
+            reported = [u for u in reported if u not in c["covered"]] + rng.sample(cov, min(1 if quick else 2, len(cov)))
+            chk.count("core:covered-reports-not-sampled", max(0, len(cov) - (1 if quick else 2)))
         for u in reported:
             if u not in lv:
                 continue        # a capture name: no leaf to vary independently
             pairs = []
             lits = [gen.int_atom(k + dk) for k in int_literals(c["tree"]) for dk in (0, 1, -1)]
-            for j in range(6):
+            np_u = 3 if (c.get("core") and c.get("covered") is not None and u in c["covered"]) else npairs
+            for j in range(np_u):
                 fixed = {l[1]: progen.gen_value(rng, l[2]) for l in lv.values() if l[1] != u}
                 v1 = progen.gen_value(rng, lv[u][2]) if (j % 2 == 0 or not lits) else rng.choice(lits)
                 a1 = value_with(rng, c["shape"], dict(fixed, **{u: v1}))
@@ -212,7 +398,16 @@ def run(chk):
                 pairs += [a1, a2]
             comp_lines.append("text:O0 " + c["text"].encode().hex() + " " + " ".join(gen.hexv(a) for a in pairs))
             meta.append((c, u, pairs))
-    io = lib.run_impl("compile", comp_lines, timeout=60, per_job=4)
+            if c.get("covered") is not None:
+                caps = enclosing_captures(c["shape"], u) or []
+                # the pairs meet the theorem's hypotheses when `u` and every capture around it are unmentioned
+                c.setdefault("predicted", {})[u] = u in c["covered"] and all(k in c["covered"] for k in caps)
+                chk.count("core:pairs-predicted-by-theorem" if c["predicted"][u] else "core:pairs-oracle-only")
+    # batches keep every process's share small enough for the per-process timeout (a timed-out share is split and
+    # re-run, which on a loaded machine used to re-run most of a thorough tier several times)
+    io = []
+    for k in range(0, len(comp_lines), 2400):
+        io += lib.run_impl("compile", comp_lines[k:k + 2400], timeout=120, per_job=4)
     for (c, u, pairs), o in zip(meta, io):
         f = o.split()
         if not f or f[0] != "C":
@@ -223,6 +418,12 @@ def run(chk):
             chk.note_case((c["text"], u, gen.hexv(pairs[j]), gen.hexv(pairs[j + 1])), True)
             same = res[j] == res[j + 1] or (res[j][0] == "F" and res[j + 1][0] == "F")
             chk.count("pair:same" if same else "pair:DIFFERENT")
+            if not same and c.get("predicted", {}).get(u):
+                # the theorem (compiler model byte-identical on this program) says this cannot happen
+                chk.fail("oracle", "unused:core-theorem-contradicted",
+                         {"program": c["text"], "parameter": u, "args1": gen.hexv(pairs[j]), "args2": gen.hexv(pairs[j + 1])},
+                         {"result1": res[j], "result2": res[j + 1]})
+                continue
             if not same:
                 sig = "unused:value-differs" if (res[j][0] == "V" and res[j + 1][0] == "V") else "unused:discarded-but-evaluated"
                 if sig == "unused:discarded-but-evaluated" and in_guard_condition(c["tree"], u):
@@ -239,5 +440,8 @@ def run(chk):
                          {"result1": res[j], "result2": res[j + 1]})
     if cases:
         chk.sample({"program": cases[0]["text"][:400], "reported": outs[0]})
-    chk.cov["modelled_not_verified"] = ["check_parameters_used_compileform / mash_conditions are not modelled in Lean; "
-                                        "non-interference is observed on the compiled program"]
+    chk.cov["modelled_not_verified"] = [
+        "the partial evaluator behind check_parameters_used_compileform (shrink_bodyform / mash_conditions) is not modelled; "
+        "Core.reportedUnused under-approximates its report on the core language by syntactic absence from the main "
+        "expression (counts core:real-report:covered-by-theorem vs core:real-report:oracle-only); real reports outside the "
+        "model's set and every program outside the core language are decided by the differential oracle only"]
